@@ -37,6 +37,11 @@ func c06Check(sp *c06Spec) func(x *vlab.Exec) []vlab.Violation {
 	return func(x *vlab.Exec) []vlab.Violation {
 		out := generic("C06", x)
 		ev := vlab.ParseTrace(x.Trace)
+		if x.Code != 0 && !progMayFail(sp.pg) && !x.Res.Deadlock && !x.Res.Horizon && x.Res.Panic == "" {
+			// (no command of this program fails and nothing guards a task: the counting clauses below only
+			// bind successful invocations, so a failing one must not pass for "nothing to count")
+			out = append(out, vlab.V("C06", "spurious_failure", "", fmt.Sprintf("no command fails, yet the invocation ended with status %d (%s)", x.Code, firstN(x.ErrStr, 120))))
+		}
 		for name, dt := range sp.dedup {
 			// executions of the task = S events of its entry 0, grouped by printed key
 			total := 0
@@ -404,4 +409,19 @@ func c06NonIdempotentDynVarUnit() *Unit {
 		}
 		return out
 	}}
+}
+
+// progMayFail: some command of the program exits non-zero, or a task carries a guard.
+func progMayFail(pg *Prog) bool {
+	for _, t := range pg.Tasks {
+		if len(t.Requires)+len(t.RequiresEnum)+len(t.Preconditions)+len(t.Prompt) > 0 || t.Internal || len(t.Platforms) > 0 {
+			return true
+		}
+		for _, c := range t.Cmds {
+			if c.Exit != 0 || c.ExitVar != "" {
+				return true
+			}
+		}
+	}
+	return false
 }
